@@ -504,7 +504,12 @@ def shape_equality(ctx, rule="R15.2"):
 RULES["R15.1"] += " | entries-stay-in-place (who-may-permute): over every function of the property's modules, no Vec/slice operation that moves entries to other positions (reverse, swap, rotate, sort .., mem::swap of two entries) outside the table of sites confirmed on the pinned tree (common.PERMUTING_SITES)"
 
 
+RULES["R15.1"] += " | writes-inside-the-walk: on the E6 summary of every non-panicking path of the in-place tensor operations (&mut self), the straight-line part contains no assignment to an indexed place and no non-appending Vec/slice mutator: all entry writes happen inside the element-wise walk"
+
+
 def run(ctx):
+    from .common import writes_inside_the_walk
+    ctx.guard("R15.1", "writes-inside-the-walk", writes_inside_the_walk, ctx, "R15.1", {"src/tensor.rs"}, lambda p_, l_, f_: (f_.get("inputs") or [""])[0].startswith("&mut") and l_ not in ("extend", "reshape"), 6)
     from .common import no_permuting_ops
     ctx.guard("R15.1", "entries-stay-in-place", no_permuting_ops, ctx, "R15.1", "tensor", {"src/tensor.rs"}, 40)
     ctx.guard("R15.2", "shape-equality", shape_equality, ctx, "R15.2")
